@@ -111,6 +111,10 @@ class Mk:
             return self.tape(name)
         if desc in ('Cache', 'dict'):
             return self.dict(name)
+        if desc == 'dict[list]':
+            d = self.dict(name)
+            d.valtype = 'list'
+            return d
         if desc == 'list[any]':
             z = ZList('val', kind='list')
             self.assume(zint(z.ln) >= 0)
